@@ -2,7 +2,7 @@ import sys, os, traceback, fcntl
 from . import core
 
 MODULES = {
-    'C08': 'check_lookup', 'C07': 'check_c07', 'C10': 'check_c10',
+    'C08': 'check_lookup', 'C07': 'check_c07', 'C10': 'check_c10', 'C17': 'check_c17', 'C16': 'check_c16',
     'C03': 'check_meta', 'C04': 'check_meta', 'C05': 'check_meta', 'C06': 'check_meta', 'C13': 'check_meta',
 }
 
